@@ -32,6 +32,7 @@ def handlers : List (String × Handler) := [
   ("c03.gen", c03Gen),
   ("c03.check", c03Check),
   ("c03.fragment", c03Fragment),
+  ("c03.checkReal", c03CheckReal),
   ("c02.roundtrip", c02RoundTrip),
   ("c04.gen", c04Gen),
   ("c04.eval", c04Eval),
